@@ -79,6 +79,8 @@ EVERY_CONSTRUCT = (
 )
 # a blank is an ordinary character of a pattern, also as its first or last one
 EDGE_BLANKS = [", ", "a ", " a", " ", "  ", " +", "[0-9]+ | ", " |a", "a| ", "( a )", " a b ", "\\x20a ", "a\t", "\ta"]
+# bracket groups whose set is everything or nothing (grammatical; what they match is C02's business)
+EXTREME_GROUPS = ["[^\\s\\S]", "[^\\d\\D]", "[^\\w\\W]", "[^[:ascii:]]", "[^\\x00-\\x7F]", "a|[^\\W\\w]", "[^\\d\\D]?x", "[\\s\\S]", "[\\x00-\\x7F]+", "[^\\x01-\\x7F]"]
 PROBLEM = ["[b-a]", "a{2,1}", "[z-a]x", "(a{3,2})", "[a-c-e]", "a{,2}", "a{}", "a{1", "a**", "(", ")", "(a", "a)", "[", "[]", "[a", "\\", "\\q",
            "\\x4", "\\xZZ", "\\p{Foo}", "\\p{L", "[:digit", "a|b|", "ab)", "a\\/b", "a\nb", "a\tb", "é", "aé", "[é]", "", "+", "?a", "{1}",
            "a{1,2,3}", "a{1}{2}", "a+?+", "[^]", "[a-]", "[-a]", "[]a]", "a\\",
